@@ -27,7 +27,9 @@ type declibInput struct {
 var declibNames = []string{"Mul", "Quo", "MulInt", "QuoInt", "TruncateInt", "RoundInt", "Ceil", "MulTruncate",
 	"QuoTruncate", "MulRoundUp", "QuoRoundUp", "MaxDec", "MinDec", "IsInteger", "fits", "NewDecFromInt"}
 
-func decOf(x *big.Int) math.LegacyDec { return math.LegacyNewDecFromBigIntWithPrec(new(big.Int).Set(x), 18) }
+func decOf(x *big.Int) math.LegacyDec {
+	return math.LegacyNewDecFromBigIntWithPrec(new(big.Int).Set(x), 18)
+}
 
 // declibCall runs one library call; ok=false when the library panicked
 // (overflow, division by zero): such inputs are outside the total model.
